@@ -1,9 +1,9 @@
 (* Extract.v — OCaml extraction of the executable model (ExtrOcamlBasic only). *)
 From Coq Require Import Extraction ExtrOcamlBasic.
 From AL Require Import Api MutexApi SemApi RwApi OnceApi BarrierApi.
-From AL.Sched Require SemEvSolo MutexEvSolo BarrierEvSolo OnceEvSolo RwReadEvSolo RwWriteEvSolo RwComp3Solo.
+From AL.Sched Require SemEvSolo MutexEvSolo BarrierEvSolo OnceEvSolo RwReadEvSolo RwWriteEvSolo RwComp3Solo BarrierCompSolo.
 Extraction Language OCaml.
 
 Extraction "../driver/model.ml" mw0 mstep sw_init sstep rw0 rstep ow0 ostep bw_init bstep
   SemEvSolo.sw2_init SemEvSolo.sstep2 MutexEvSolo.mw2_init MutexEvSolo.mstep2 BarrierEvSolo.bw2_init BarrierEvSolo.bstep2
-  OnceEvSolo.ow2_init OnceEvSolo.ostep2 RwReadEvSolo.rw2_init RwReadEvSolo.rstep2 RwWriteEvSolo.ww2_init RwWriteEvSolo.wstep2 RwComp3Solo.x3_init RwComp3Solo.xstep2.
+  OnceEvSolo.ow2_init OnceEvSolo.ostep2 RwReadEvSolo.rw2_init RwReadEvSolo.rstep2 RwWriteEvSolo.ww2_init RwWriteEvSolo.wstep2 RwComp3Solo.x3_init RwComp3Solo.xstep2 BarrierCompSolo.by2_init BarrierCompSolo.ystep2.
